@@ -60,6 +60,12 @@ func (e *kvElection) heartbeatLoop(ctx context.Context) {
 				}
 			}
 
+			// The health check can take up to its time-out: the term may have ended
+			// meanwhile (and the revision field may now hold another leader's record).
+			if ctx.Err() != nil || !e.IsLeader() {
+				return
+			}
+
 			currentRev := e.revision.Load()
 
 			token := e.Token()
